@@ -10,15 +10,36 @@ Import ListNotations.
 Lemma bty_eqb_eq : forall a b, bty_eqb a b = true -> a = b.
 Proof. destruct a, b; simpl; intros; congruence. Qed.
 
+Lemma btys_eqb_eq : forall a b, btys_eqb a b = true -> a = b.
+Proof.
+  induction a as [| x a IH]; destruct b as [| y b]; simpl; intros H; try discriminate; auto.
+  apply andb_prop in H as [H1 H2]. apply bty_eqb_eq in H1. apply IH in H2. congruence.
+Qed.
+
+Lemma btys_eqb_refl : forall a, btys_eqb a a = true.
+Proof. induction a as [| x a IH]; simpl; auto. rewrite IH. destruct x; reflexivity. Qed.
+
 Lemma ty_eqb_eq : forall a b, ty_eqb a b = true -> a = b.
 Proof.
-  destruct a as [| | | | x | d n], b as [| | | | y | d' n']; simpl; intros H; try congruence.
+  destruct a as [| | | | x | d n | xa | us | ps r | | fs], b as [| | | | y | d' n' | ya | us' | ps' r' | | fs']; simpl; intros H; try congruence.
   - apply bty_eqb_eq in H. congruence.
   - apply andb_prop in H as [H1 H2]. destruct d, d'; try discriminate; destruct n, n'; try discriminate; reflexivity.
+  - apply bty_eqb_eq in H. congruence.
+  - apply btys_eqb_eq in H. congruence.
+  - apply andb_prop in H as [H1 H2]. apply btys_eqb_eq in H1. apply bty_eqb_eq in H2. congruence.
+  - apply btys_eqb_eq in H. congruence.
 Qed.
 
 Lemma ty_eqb_refl : forall a, ty_eqb a a = true.
-Proof. destruct a; try reflexivity; [destruct b; reflexivity | destruct d, n; reflexivity]. Qed.
+Proof.
+  destruct a as [| | | | x | d n | xa | us | ps r | | fs]; simpl; try reflexivity.
+  - destruct x; reflexivity.
+  - destruct d, n; reflexivity.
+  - destruct xa; reflexivity.
+  - apply btys_eqb_refl.
+  - rewrite btys_eqb_refl. destruct r; reflexivity.
+  - apply btys_eqb_refl.
+Qed.
 
 Lemma tys_eqb_eq : forall a b, tys_eqb a b = true -> a = b.
 Proof.
@@ -64,12 +85,61 @@ Proof.
   apply cands_from_nth in Hin as (_ & H2 & _ & H4). rewrite Nat.sub_0_r in H2. auto.
 Qed.
 
+Section Sound.
+  Variable G : list (ty * bool).
+  Variable F : list fundef.
+  Hypothesis Hfuns : forall j fd, nth_error F j = Some fd -> check_fun G F j fd = true.
+
+(* function values have a function type or the junk type, nothing else *)
+Lemma clo_ty_cases : forall j env, clo_ty F j env = TBad \/ exists ps r, clo_ty F j env = TFun ps r.
+Proof.
+  intros j env. unfold clo_ty. destruct (nth_error F j) as [fd |]; [| left; reflexivity].
+  destruct (btys_of_tys (fd_params fd)); [| left; reflexivity].
+  destruct (bty_of_ty (fd_ret fd)); [| left; reflexivity].
+  match goal with |- context [if ?c then _ else _] => destruct c end; [right; eauto | left; reflexivity].
+Qed.
+
+Ltac clo_absurd :=
+  match goal with
+  | H : context [clo_ty F ?j ?env] |- _ =>
+      let E := fresh "E" in
+      destruct (clo_ty_cases j env) as [E | [? [? E]]]; rewrite E in H; simpl in H; discriminate
+  end.
+
+Lemma bty_of_ty_inv : forall t b, bty_of_ty t = Some b -> t = ty_of_bty b.
+Proof. intros t b0 H. destruct t; simpl in H; try discriminate; injection H as <-; reflexivity. Qed.
+
+Lemma bty_of_ty_of : forall b, bty_of_ty (ty_of_bty b) = Some b.
+Proof. destruct b; reflexivity. Qed.
+
+Lemma base_tys : forall tys,
+    forallb (fun t => match bty_of_ty t with Some _ => true | None => false end) tys = true ->
+    exists bl, tys = map ty_of_bty bl.
+Proof.
+  induction tys as [| t tys IH]; simpl; intros H.
+  - exists []. reflexivity.
+  - apply andb_prop in H as [H1 H2]. destruct (bty_of_ty t) as [b |] eqn:Hb; [| discriminate].
+    destruct (IH H2) as (bl & ->). exists (b :: bl). simpl. f_equal. apply bty_of_ty_inv. assumption.
+Qed.
+
+Lemma btys_of_tys_map : forall bl, btys_of_tys (map ty_of_bty bl) = Some bl.
+Proof. induction bl as [| b bl IH]; simpl; auto. rewrite bty_of_ty_of, IH. reflexivity. Qed.
+
+Lemma btys_of_tys_inv : forall ts bl, btys_of_tys ts = Some bl -> ts = map ty_of_bty bl.
+Proof.
+  induction ts as [| t ts IH]; simpl; intros bl H.
+  - injection H as <-. reflexivity.
+  - destruct (bty_of_ty t) as [b |] eqn:Hb; [| discriminate].
+    destruct (btys_of_tys ts) as [bs |]; [| discriminate]. injection H as <-.
+    simpl. f_equal; [apply bty_of_ty_inv; assumption | apply IH; reflexivity].
+Qed.
+
 (* ---------- typing of values and states ---------- *)
 Definition vals_typed (vs : list value) (ds : list (ty * bool)) : Prop :=
-  Forall2 (fun v d => type_of v = fst d) vs ds.
+  Forall2 (fun v d => type_of F v = fst d) vs ds.
 
 Definition same_types (a b : list value) : Prop :=
-  Forall2 (fun v v' => type_of v = type_of v') a b.
+  Forall2 (fun v v' => type_of F v = type_of F v') a b.
 
 Lemma same_types_refl : forall a, same_types a a.
 Proof. induction a; constructor; auto. Qed.
@@ -90,7 +160,7 @@ Qed.
 
 Lemma same_types_nth : forall a b k v,
     same_types a b -> nth_error a k = Some v ->
-    exists v', nth_error b k = Some v' /\ type_of v' = type_of v.
+    exists v', nth_error b k = Some v' /\ type_of F v' = type_of F v.
 Proof.
   intros a b k v H; revert k; induction H; intros k Hk; destruct k; simpl in *; try discriminate.
   - inversion Hk; subst. eauto.
@@ -115,7 +185,7 @@ Proof.
 Qed.
 
 Lemma set_nth_same : forall l k v v0,
-    nth_error l k = Some v0 -> type_of v = type_of v0 ->
+    nth_error l k = Some v0 -> type_of F v = type_of F v0 ->
     exists l', set_nth l k v = Some l' /\ same_types l l'.
 Proof.
   induction l as [| x l IH]; intros k v v0 Hn Ht; destruct k; simpl in *; try discriminate.
@@ -126,7 +196,7 @@ Qed.
 
 Lemma vals_typed_nth : forall vs ds k t m,
     vals_typed vs ds -> nth_error ds k = Some (t, m) ->
-    exists v, nth_error vs k = Some v /\ type_of v = t.
+    exists v, nth_error vs k = Some v /\ type_of F v = t.
 Proof.
   intros vs ds k t m H; revert k; induction H; intros k Hk; destruct k; simpl in *; try discriminate.
   - inversion Hk; subst. eexists; split; [reflexivity | rewrite H; reflexivity].
@@ -146,19 +216,154 @@ Lemma gpres_trans : forall a b c, gpres a b -> gpres b c -> gpres a c.
 Proof. unfold gpres; intros; eapply same_types_trans; eauto. Qed.
 
 (* ---------- prim soundness ---------- *)
+
+
+Lemma bool_value : forall v, type_of F v = TBool -> exists b, v = VBool b.
+Proof. destruct v as [[] ? | b | ? | [] ? | ? | ? | [] [] ? | [] ? | ? | ? | ? ? ? | ? ? | ?]; simpl; intros; try discriminate; try clo_absurd. eauto. Qed.
+
+Lemma mi_value : forall v, type_of F v = TMI -> exists z, v = VNum NMI z.
+Proof. destruct v as [[] ? | b | ? | [] ? | ? | ? | [] [] ? | [] ? | ? | ? | ? ? ? | ? ? | ?]; simpl; intros; try discriminate; try clo_absurd. eauto. Qed.
+
+
+(* record fields *)
+Lemma to_bval_typed : forall v b, type_of F v = ty_of_bty b ->
+    exists bv, to_bval v = Some bv /\ btype_of bv = b.
+Proof.
+  intros v b H.
+  destruct v as [[] ?|?|?|[] ?|?|?|[] [] ?|[] ?|?|?|? ? ?|? ?|?]; destruct b; simpl in *; try discriminate; try clo_absurd;
+    eexists; split; reflexivity.
+Qed.
+
+Lemma to_bvals_typed : forall vs fs, map (type_of F) vs = map ty_of_bty fs ->
+    exists bs, map_opt to_bval vs = Some bs /\ map btype_of bs = fs.
+Proof.
+  induction vs as [| v vs IH]; destruct fs as [| b fs]; simpl; intros H; try discriminate.
+  - eauto.
+  - injection H as H1 H2. destruct (to_bval_typed v b H1) as (bv & -> & Hb).
+    destruct (IH fs H2) as (bs & -> & Hbs). exists (bv :: bs). simpl. split; congruence.
+Qed.
+
+Lemma of_bval_typed : forall b, type_of F (of_bval b) = ty_of_bty (btype_of b).
+Proof. destruct b as [[] ?|?|?]; reflexivity. Qed.
+
+Lemma of_bvals_typed : forall env, map (type_of F) (map of_bval env) = map ty_of_bty (map btype_of env).
+Proof. induction env as [| b env IH]; simpl; auto. rewrite of_bval_typed, IH. reflexivity. Qed.
+
+Lemma clo_value : forall v ps r, type_of F v = TFun ps r -> exists j env, v = VClo j env.
+Proof.
+  intros v ps r H.
+  destruct v as [[] ?|?|?|[] ?|?|?|[] [] ?|[] ?|?|?|? ? ?|j env|?]; simpl in H; try discriminate. eauto.
+Qed.
+
+Lemma set_nth_btypes : forall bs i b b0,
+    nth_error (map btype_of bs) i = Some b0 -> btype_of b = b0 ->
+    exists bs', set_nth bs i b = Some bs' /\ map btype_of bs' = map btype_of bs.
+Proof.
+  induction bs as [| x bs IH]; intros i b b0 Hn Hb; destruct i; simpl in *; try discriminate.
+  - injection Hn as Hn. eexists; split; [reflexivity |]. simpl. congruence.
+  - destruct (IH i b b0 Hn Hb) as (bs' & -> & H). eexists; split; [reflexivity |]. simpl. congruence.
+Qed.
+
+Lemma rec_value : forall v fs, type_of F v = TRec fs -> exists bs, v = VRec bs /\ map btype_of bs = fs.
+Proof.
+  intros v us H.
+  destruct v as [[] ?|?|?|[] ?|?|?|[] [] ?|[] ?|?|?|? ? ?|? ?|bs]; simpl in H; try discriminate; try clo_absurd.
+  injection H as H. eauto.
+Qed.
+
+(* union values *)
+Lemma uni_value : forall v fs, type_of F v = TUni fs ->
+    exists pre bv post, v = VUni pre bv post /\ fs = pre ++ btype_of bv :: post.
+Proof.
+  intros v us H.
+  destruct v as [[] ?|?|?|[] ?|?|?|[] [] ?|[] ?|?|?|pre bv post|? ?|?]; simpl in H; try discriminate; try clo_absurd.
+  injection H as H. eauto.
+Qed.
+
+Lemma firstn_skipn_nth : forall (A : Type) (l : list A) i x,
+    nth_error l i = Some x -> firstn i l ++ x :: skipn (S i) l = l.
+Proof.
+  induction l as [| a l IH]; intros i x H; destruct i; simpl in *; try discriminate.
+  - congruence.
+  - f_equal. apply IH. assumption.
+Qed.
+
+(* list values and their elements *)
+Lemma dec_list_typed : forall v b, type_of F v = TList b \/ type_of F v = TArr b ->
+    exists vs, dec_list v = Some vs /\ Forall (fun x => type_of F x = ty_of_bty b) vs.
+Proof.
+  intros v b0 [H | H];
+    destruct v as [[] ?|?|?|[] zs|bs|ss|[] [] ?|[] zs|bs|ss|? ? ?|? ?|?]; simpl in H; try discriminate; try clo_absurd; inversion H; subst;
+    eexists; (split; [reflexivity |]); apply Forall_forall; intros x Hx;
+    apply in_map_iff in Hx as (y & <- & _); reflexivity.
+Qed.
+
+Lemma enc_list_typed : forall b vs, Forall (fun x => type_of F x = ty_of_bty b) vs ->
+    exists v, enc_list b vs = Some v /\ type_of F v = TList b.
+Proof.
+  intros b vs H.
+  assert (Hn : forall n l, Forall (fun x => type_of F x = ty_of_nty n) l ->
+                           exists zs, map_opt (fun v => match v with VNum _ z => Some z | _ => None end) l = Some zs).
+  { intros n l Hf. induction Hf as [| x l Hx Hl IH]; simpl; [eauto |].
+    destruct x as [n0 z|?|?|? ?|?|?|? ? ?|? ?|?|?|? ? ?|? ?|?]; simpl in Hx; try (destruct n; discriminate); try (destruct n; clo_absurd).
+    destruct IH as (zs & ->). eauto. }
+  destruct b; simpl in *.
+  - destruct (Hn NMI vs H) as (zs & ->). simpl. eauto.
+  - destruct (Hn NInt vs H) as (zs & ->). simpl. eauto.
+  - assert (exists bs, map_opt (fun v => match v with VBool x => Some x | _ => None end) vs = Some bs) as (bs & ->).
+    { induction H as [| x l Hx Hl IH]; simpl; [eauto |].
+      destruct x as [[] ?|?|?|[] ?|?|?|[] [] ?|[] ?|?|?|? ? ?|? ?|?]; simpl in Hx; try discriminate; try clo_absurd. destruct IH as (bs & ->). eauto. }
+    simpl. eauto.
+  - assert (exists ss, map_opt (fun v => match v with VStr x => Some x | _ => None end) vs = Some ss) as (ss & ->).
+    { induction H as [| x l Hx Hl IH]; simpl; [eauto |].
+      destruct x as [[] ?|?|?|[] ?|?|?|[] [] ?|[] ?|?|?|? ? ?|? ?|?]; simpl in Hx; try discriminate; try clo_absurd. destruct IH as (ss & ->). eauto. }
+    simpl. eauto.
+Qed.
+
+Lemma enc_arr_typed : forall b vs, Forall (fun x => type_of F x = ty_of_bty b) vs ->
+    exists v, enc_arr b vs = Some v /\ type_of F v = TArr b.
+Proof.
+  intros b vs H.
+  assert (Hn : forall n l, Forall (fun x => type_of F x = ty_of_nty n) l ->
+                           exists zs, map_opt (fun v => match v with VNum _ z => Some z | _ => None end) l = Some zs).
+  { intros n l Hf. induction Hf as [| x l Hx Hl IH]; simpl; [eauto |].
+    destruct x as [n0 z|?|?|? ?|?|?|? ? ?|? ?|?|?|? ? ?|? ?|?]; simpl in Hx; try (destruct n; discriminate); try (destruct n; clo_absurd).
+    destruct IH as (zs & ->). eauto. }
+  destruct b; simpl in *.
+  - destruct (Hn NMI vs H) as (zs & ->). simpl. eauto.
+  - destruct (Hn NInt vs H) as (zs & ->). simpl. eauto.
+  - assert (exists bs, map_opt (fun v => match v with VBool x => Some x | _ => None end) vs = Some bs) as (bs & ->).
+    { induction H as [| x l Hx Hl IH]; simpl; [eauto |].
+      destruct x as [[] ?|?|?|[] ?|?|?|[] [] ?|[] ?|?|?|? ? ?|? ?|?]; simpl in Hx; try discriminate; try clo_absurd. destruct IH as (bs & ->). eauto. }
+    simpl. eauto.
+  - assert (exists ss, map_opt (fun v => match v with VStr x => Some x | _ => None end) vs = Some ss) as (ss & ->).
+    { induction H as [| x l Hx Hl IH]; simpl; [eauto |].
+      destruct x as [[] ?|?|?|[] ?|?|?|[] [] ?|[] ?|?|?|? ? ?|? ?|?]; simpl in Hx; try discriminate; try clo_absurd. destruct IH as (ss & ->). eauto. }
+    simpl. eauto.
+Qed.
+
 Lemma prim_sound : forall p vs,
-    map type_of vs = fst (prim_sig p) ->
+    map (type_of F) vs = fst (prim_sig p) ->
     match prim_eval p vs with
-    | PVal v => type_of v = snd (prim_sig p)
+    | PVal v => type_of F v = snd (prim_sig p)
     | PUndef => True
     | PStuck => False
     end.
 Proof.
   intros p vs H.
-  destruct p; try destruct d; try destruct n; try destruct b; simpl in H;
+  destruct p;
+    try match goal with
+        | |- context [prim_eval (PANew ?b0) _] =>
+            simpl in H; destruct vs as [| v1 [| v2 [| ? ?]]]; try discriminate; simpl in H;
+            injection H as H1 H2; apply mi_value in H1 as [z ->]; simpl;
+            destruct (z <? 0)%Z; [exact I |];
+            destruct (enc_arr_typed b0 (repeat v2 (Z.to_nat z))) as (a & -> & Ha);
+            [apply Forall_forall; intros x Hx; apply repeat_spec in Hx; subst; assumption | exact Ha]
+        end;
+    try destruct d; try destruct n; try destruct b; simpl in H;
     repeat (destruct vs as [| ?v vs]; simpl in H; try discriminate);
     repeat match goal with
-           | v : value |- _ => destruct v as [[] ?|?|?|[] ?|?|?|[] [] ?]; simpl in H; try discriminate
+           | v : value |- _ => destruct v as [[] ?|?|?|[] ?|?|?|[] [] ?|[] ?|?|?|? ? ?|? ?|?]; simpl in H; try discriminate; try clo_absurd
            end;
     simpl;
     repeat match goal with
@@ -168,54 +373,24 @@ Proof.
            end; simpl; auto.
 Qed.
 
-Lemma bool_value : forall v, type_of v = TBool -> exists b, v = VBool b.
-Proof. destruct v as [[] ? | b | ? | [] ? | ? | ? | [] [] ?]; simpl; intros; try discriminate. eauto. Qed.
-
-Lemma mi_value : forall v, type_of v = TMI -> exists z, v = VNum NMI z.
-Proof. destruct v as [[] ? | b | ? | [] ? | ? | ? | [] [] ?]; simpl; intros; try discriminate. eauto. Qed.
-
-
-(* list values and their elements *)
-Lemma dec_list_typed : forall v b, type_of v = TList b ->
-    exists vs, dec_list v = Some vs /\ Forall (fun x => type_of x = ty_of_bty b) vs.
+Lemma arr_set_typed : forall a z v b, type_of F a = TArr b -> type_of F v = ty_of_bty b ->
+    arr_set a z v = Some None \/ exists a', arr_set a z v = Some (Some a') /\ type_of F a' = TArr b.
 Proof.
-  destruct v as [[] ?|?|?|[] zs|bs|ss|[] [] ?]; simpl; intros b0 H; try discriminate; inversion H; subst;
-    eexists; (split; [reflexivity |]); apply Forall_forall; intros x Hx;
-    apply in_map_iff in Hx as (y & <- & _); reflexivity.
+  intros a z v b Ha Hv. unfold arr_set. destruct (z <? 0)%Z; [left; reflexivity |].
+  destruct a as [[] ?|?|?|[] ?|?|?|[] [] ?|[] zs|bs|ss|? ? ?|? ?|?]; simpl in Ha; try discriminate; try clo_absurd;
+    injection Ha as Ha; subst b;
+    destruct v as [[] ?|?|?|[] ?|?|?|[] [] ?|[] ?|?|?|? ? ?|? ?|?]; simpl in Hv; try discriminate; try clo_absurd;
+    match goal with
+    | |- context [set_nth ?l ?k ?x] => destruct (set_nth l k x); simpl; [right; eexists; split; reflexivity | left; reflexivity]
+    end.
 Qed.
 
-Lemma enc_list_typed : forall b vs, Forall (fun x => type_of x = ty_of_bty b) vs ->
-    exists v, enc_list b vs = Some v /\ type_of v = TList b.
-Proof.
-  intros b vs H.
-  assert (Hn : forall n l, Forall (fun x => type_of x = ty_of_nty n) l ->
-                           exists zs, map_opt (fun v => match v with VNum _ z => Some z | _ => None end) l = Some zs).
-  { intros n l Hf. induction Hf as [| x l Hx Hl IH]; simpl; [eauto |].
-    destruct x as [n0 z|?|?|? ?|?|?|? ? ?]; simpl in Hx; try (destruct n; discriminate).
-    destruct IH as (zs & ->). eauto. }
-  destruct b; simpl in *.
-  - destruct (Hn NMI vs H) as (zs & ->). simpl. eauto.
-  - destruct (Hn NInt vs H) as (zs & ->). simpl. eauto.
-  - assert (exists bs, map_opt (fun v => match v with VBool x => Some x | _ => None end) vs = Some bs) as (bs & ->).
-    { induction H as [| x l Hx Hl IH]; simpl; [eauto |].
-      destruct x as [[] ?|?|?|[] ?|?|?|[] [] ?]; simpl in Hx; try discriminate. destruct IH as (bs & ->). eauto. }
-    simpl. eauto.
-  - assert (exists ss, map_opt (fun v => match v with VStr x => Some x | _ => None end) vs = Some ss) as (ss & ->).
-    { induction H as [| x l Hx Hl IH]; simpl; [eauto |].
-      destruct x as [[] ?|?|?|[] ?|?|?|[] [] ?]; simpl in Hx; try discriminate. destruct IH as (ss & ->). eauto. }
-    simpl. eauto.
-Qed.
-
-Section Sound.
-  Variable G : list (ty * bool).
-  Variable F : list fundef.
-  Hypothesis Hfuns : forall j fd, nth_error F j = Some fd -> check_fun G F j fd = true.
 
   Definition ctx_ok (cx : ctx) : Prop := cG cx = G /\ cF cx = F.
 
   Definition g_ok (ng : nat) (g : list value) : Prop :=
     forall k t m, k < ng -> nth_error G k = Some (t, m) ->
-                  exists v, nth_error g k = Some v /\ type_of v = t.
+                  exists v, nth_error g k = Some v /\ type_of F v = t.
 
   Definition st_ok (cx : ctx) (s : state) : Prop :=
     g_ok (cNG cx) (sg s) /\ vals_typed (sl s) (cL cx).
@@ -242,18 +417,18 @@ Section Sound.
     match r with
     | RVal s' a => P s' a
     | RBrk s' | RIter s' => cLoop cx = true /\ pres s s'
-    | RRet s' v => cRet cx = Some (type_of v) /\ gpres s s'
+    | RRet s' v => cRet cx = Some (type_of F v) /\ gpres s s'
     | RExit s' ov =>
         ex = true /\ pres s s' /\
-        match ov with None => cSeq cx = None | Some v => cSeq cx = Some (type_of v) end
+        match ov with None => cSeq cx = None | Some v => cSeq cx = Some (type_of F v) end
     | RThrow s' _ => pres s s'
     | RUndef | RFuel => True
     | RStuck => False
     end.
 
-  Definition val_ok (t : ty) (s s' : state) (v : value) : Prop := type_of v = t /\ pres s s'.
+  Definition val_ok (t : ty) (s s' : state) (v : value) : Prop := type_of F v = t /\ pres s s'.
   Definition vals_ok (ts : list ty) (s s' : state) (vs : list value) : Prop :=
-    map type_of vs = ts /\ pres s s'.
+    map (type_of F) vs = ts /\ pres s s'.
   Definition unit_ok (s s' : state) (_ : unit) : Prop := pres s s'.
 
   (* outcome of the local initialisers (the frame grows, so jumps only keep the globals) *)
@@ -261,7 +436,7 @@ Section Sound.
     match r with
     | RVal s' _ => st_ok cx' s' /\ gpres s s'
     | RBrk s' | RIter s' => cLoop cx = true
-    | RRet s' v => cRet cx = Some (type_of v) /\ gpres s s'
+    | RRet s' v => cRet cx = Some (type_of F v) /\ gpres s s'
     | RExit _ _ => False
     | RThrow s' _ => gpres s s'
     | RUndef | RFuel => True
@@ -274,13 +449,21 @@ Section Sound.
     (forall cx s es ts, ctx_ok cx -> st_ok cx s -> map_opt (infer cx) es = Some ts ->
                         out_ok cx s false (vals_ok ts s) (eval_args F n s es)) /\
     (forall cx s name vs t, ctx_ok cx -> g_ok (cNG cx) (sg s) ->
-                            check_call cx name (map type_of vs) = Some t ->
+                            check_call cx name (map (type_of F) vs) = Some t ->
                             match eval_call F n s name vs with
-                            | RVal s' v => type_of v = t /\ gpres s s' /\ sl s' = sl s
+                            | RVal s' v => type_of F v = t /\ gpres s s' /\ sl s' = sl s
                             | RThrow s' _ => gpres s s' /\ sl s' = sl s
                             | RUndef | RFuel => True
                             | _ => False
                             end) /\
+    (forall s j fd vs, nth_error F j = Some fd -> g_ok (fd_nglob fd) (sg s) ->
+                       map (type_of F) vs = fd_params fd ->
+                       match eval_fun F n s fd vs with
+                       | RVal s' v => type_of F v = fd_ret fd /\ gpres s s' /\ sl s' = sl s
+                       | RThrow s' _ => gpres s s' /\ sl s' = sl s
+                       | RUndef | RFuel => True
+                       | _ => False
+                       end) /\
     (forall cx cx' s ls, ctx_ok cx -> st_ok cx s -> check_locals cx ls = Some cx' ->
                          locals_ok cx cx' s (eval_locals F n s ls)) /\
     (forall cx s ss, ctx_ok cx -> st_ok cx s -> check_block cx ss = true ->
@@ -294,7 +477,7 @@ Section Sound.
                            check_block (in_loop (push_local cx (TMI, false))) body = true ->
                            out_ok cx s false (unit_ok s) (eval_for F n s a b body)) /\
     (forall cx s b vs body, ctx_ok cx -> st_ok cx s ->
-                            Forall (fun v => type_of v = ty_of_bty b) vs ->
+                            Forall (fun v => type_of F v = ty_of_bty b) vs ->
                             check_block (in_loop (push_local cx (ty_of_bty b, false))) body = true ->
                             out_ok cx s false (unit_ok s) (eval_forin F n s vs body)).
 
@@ -341,7 +524,7 @@ Section Sound.
       forall cx s e t, ctx_ok cx -> st_ok cx s -> infer cx e = Some t ->
                        out_ok cx s false (val_ok t s) (eval_expr F (S n) s e).
   Proof.
-    intros n (IHe & IHa & IHc & IHl & IHb & IHs & IHw & IHf & IHfi) cx s e t Hcx Hst Hinf.
+    intros n (IHe & IHa & IHc & IHfn & IHl & IHb & IHs & IHw & IHf & IHfi) cx s e t Hcx Hst Hinf.
     destruct e; simpl in Hinf |- *.
     - (* ELit *)
       split; [| apply pres_refl].
@@ -370,7 +553,7 @@ Section Sound.
       specialize (Hps eq_refl). destruct (prim_eval p vs); simpl; auto. split; auto.
     - (* ECall *)
       destruct (map_opt (infer cx) args) as [tys |] eqn:Hargs; [| discriminate].
-      destruct (ordered_args cx args); [| discriminate].
+      destruct (ordered_args cx args && args_sharable cx args tys)%bool; [| discriminate].
       eapply out_ok_bind; [eapply IHa; eauto | auto |].
       intros s' vs [Hvs Hp]. subst tys.
       assert (Hst' : st_ok cx s') by (eapply st_ok_pres; eauto).
@@ -436,7 +619,7 @@ Section Sound.
       eapply out_ok_bind; [eapply out_ok_shift; [exact Hp1 | eapply IHe; eauto | intros ? ? H; exact H] | auto |].
       intros s2 v2 [Hv2 Hp2].
       pose proof (prim_sound (mac_prim m) [v1; v2]) as Hps.
-      assert (Hts : map type_of [v1; v2] = fst (prim_sig (mac_prim m))).
+      assert (Hts : map (type_of F) [v1; v2] = fst (prim_sig (mac_prim m))).
       { simpl. rewrite Hv1, Hv2, Hc. destruct m; reflexivity. }
       specialize (Hps Hts). destruct (prim_eval (mac_prim m) [v1; v2]); simpl; auto.
       split; [| eapply pres_trans; eauto].
@@ -447,10 +630,120 @@ Section Sound.
       inversion Hinf; subst. apply andb_prop in Hc as [Hc _].
       eapply out_ok_bind; [eapply IHa; eauto | auto |].
       intros s' vs [Hvs Hp].
-      assert (Hall : Forall (fun x => type_of x = ty_of_bty b) vs).
+      assert (Hall : Forall (fun x => type_of F x = ty_of_bty b) vs).
       { subst tys. rewrite forallb_forall in Hc. apply Forall_forall. intros x Hx.
         apply ty_eqb_eq. apply Hc. apply in_map. exact Hx. }
       destruct (enc_list_typed b vs Hall) as (v & -> & Hv). simpl. split; assumption.
+    - (* EArrLit *)
+      destruct (map_opt (infer cx) es) as [tys |] eqn:Hargs; [| discriminate].
+      destruct (forallb (fun t0 => ty_eqb t0 (ty_of_bty b)) tys && ordered_args cx es)%bool eqn:Hc; [| discriminate].
+      inversion Hinf; subst. apply andb_prop in Hc as [Hc _].
+      eapply out_ok_bind; [eapply IHa; eauto | auto |].
+      intros s' vs [Hvs Hp].
+      assert (Hall : Forall (fun x => type_of F x = ty_of_bty b) vs).
+      { subst tys. rewrite forallb_forall in Hc. apply Forall_forall. intros x Hx.
+        apply ty_eqb_eq. apply Hc. apply in_map. exact Hx. }
+      destruct (enc_arr_typed b vs Hall) as (v & -> & Hv). simpl. split; assumption.
+    - (* ERec *)
+      destruct (map_opt (infer cx) es) as [tys |] eqn:Hargs; [| discriminate].
+      destruct (tys_eqb tys (map ty_of_bty fs) && ordered_args cx es)%bool eqn:Hc; [| discriminate].
+      inversion Hinf; subst. apply andb_prop in Hc as [Hc _]. apply tys_eqb_eq in Hc.
+      eapply out_ok_bind; [eapply IHa; eauto | auto |].
+      intros s' vs [Hvs Hp]. rewrite Hc in Hvs.
+      destruct (to_bvals_typed vs fs Hvs) as (bs & -> & Hbs). simpl.
+      split; [simpl; rewrite Hbs; reflexivity | assumption].
+    - (* EField *)
+      destruct (infer cx e) as [t0 |] eqn:He; [| discriminate].
+      destruct t0 as [| | | | | | | | | | fs]; try discriminate.
+      destruct (nth_error fs i) as [b |] eqn:Hf; [| discriminate]. inversion Hinf; subst.
+      eapply out_ok_bind; [eapply IHe; eauto | auto |].
+      intros s' v [Hv Hp]. apply rec_value in Hv as (bs & -> & Hbs).
+      rewrite <- Hbs in Hf. rewrite nth_error_map in Hf.
+      destruct (nth_error bs i) as [bv |] eqn:Hb; [| discriminate]. simpl in Hf. injection Hf as Hf.
+      simpl. split; [| assumption]. rewrite of_bval_typed. congruence.
+    - (* EUni *)
+      destruct (nth_error fs i) as [b |] eqn:Hf; [| discriminate].
+      destruct (opt_ty_eqb (infer cx e) (ty_of_bty b)) eqn:He; [| discriminate].
+      apply opt_ty_eqb_eq in He. inversion Hinf; subst.
+      eapply out_ok_bind; [eapply IHe; eauto | auto |].
+      intros s' v [Hv Hp]. destruct (to_bval_typed v b Hv) as (bv & -> & Hb). simpl.
+      split; [simpl; rewrite Hb; f_equal; apply firstn_skipn_nth; assumption | assumption].
+    - (* ECase *)
+      destruct (infer cx e) as [t0 |] eqn:He; [| discriminate].
+      destruct t0 as [| | | | | | | fs | | |]; try discriminate.
+      destruct (Nat.ltb i (List.length fs)); [| discriminate]. inversion Hinf; subst.
+      eapply out_ok_bind; [eapply IHe; eauto | auto |].
+      intros s' v [Hv Hp]. apply uni_value in Hv as (pre & bv & post & -> & _). simpl. split; [reflexivity | assumption].
+    - (* EClo *)
+      destruct (map_opt (infer cx) caps) as [tys |] eqn:Hargs; [| discriminate].
+      destruct (forallb (stable cx) caps && negb (cLoop cx)
+                && forallb (fun t0 => match bty_of_ty t0 with Some _ => true | None => false end) tys)%bool eqn:Hc;
+        [| discriminate].
+      apply andb_prop in Hc as [_ Hbase]. destruct (base_tys tys Hbase) as (bl & ->).
+      destruct Hcx as [HG HF]. rewrite HF in Hinf.
+      destruct (resolve F name (map ty_of_bty bl ++ map ty_of_bty ps)) as [[j fd] |] eqn:Hres; [| discriminate].
+      destruct (Nat.ltb j (cNF cx) && Nat.eqb (fd_nglob fd) 0)%bool eqn:Hc2; [| discriminate].
+      apply andb_prop in Hc2 as [_ Hng]. apply Nat.eqb_eq in Hng.
+      destruct (bty_of_ty (fd_ret fd)) as [r' |] eqn:Hr; [| discriminate].
+      destruct (bty_eqb r r') eqn:Hrr; [| discriminate]. apply bty_eqb_eq in Hrr. subst r'.
+      inversion Hinf; subst t.
+      eapply out_ok_bind; [eapply IHa; [split; eauto | eauto | eauto] | auto |].
+      intros s' vs [Hvs Hp].
+      destruct (to_bvals_typed vs bl Hvs) as (bs & -> & Hbs). rewrite Hvs, Hres. simpl.
+      split; [| assumption].
+      apply resolve_nth in Hres as [Hnth Hparams]. simpl. unfold clo_ty. rewrite Hnth.
+      rewrite <- map_app in Hparams. rewrite Hparams, btys_of_tys_map, Hr, Hng.
+      assert (Hlen : List.length bs = List.length bl) by (rewrite <- Hbs; symmetry; apply map_length).
+      rewrite Hlen, firstn_app, firstn_all, Nat.sub_diag. simpl. rewrite app_nil_r, Hbs, btys_eqb_refl.
+      rewrite skipn_app, skipn_all, Nat.sub_diag. simpl.
+      rewrite app_length. replace (Nat.leb (List.length bl) (List.length bl + List.length ps)) with true
+        by (symmetry; apply Nat.leb_le; lia). reflexivity.
+    - (* EApp *)
+      destruct (infer cx e) as [tf |] eqn:Hf; [| discriminate].
+      destruct tf as [| | | | | | | | ps r | |]; try discriminate.
+      destruct (map_opt (infer cx) args) as [tys |] eqn:Hargs; [| discriminate].
+      destruct (tys_eqb tys (map ty_of_bty ps) && ordered_args cx (e :: args) && negb (cPure cx))%bool eqn:Hc;
+        [| discriminate].
+      inversion Hinf; subst t. apply andb_prop in Hc as [Hc _]. apply andb_prop in Hc as [Hc _].
+      apply tys_eqb_eq in Hc. subst tys.
+      eapply out_ok_bind; [eapply IHe; eauto | auto |].
+      intros s1 vf [Hvf Hp1].
+      assert (Hst1 : st_ok cx s1) by (eapply st_ok_pres; eauto).
+      eapply out_ok_bind; [eapply out_ok_shift; [exact Hp1 | eapply IHa; eauto | intros ? ? H; exact H] | auto |].
+      intros s2 vs [Hvs Hp2].
+      destruct (clo_value vf ps r Hvf) as (j & env & ->). simpl in Hvf. unfold clo_ty in Hvf.
+      destruct (nth_error F j) as [fd |] eqn:Hnth; [| discriminate].
+      destruct (btys_of_tys (fd_params fd)) as [bs |] eqn:Hbs; [| discriminate].
+      destruct (bty_of_ty (fd_ret fd)) as [r0 |] eqn:Hr; [| discriminate].
+      destruct (Nat.eqb (fd_nglob fd) 0 && btys_eqb (firstn (List.length env) bs) (map btype_of env)
+                && Nat.leb (List.length env) (List.length bs))%bool eqn:Hc2; [| discriminate].
+      injection Hvf as Hps Hr0. subst r0.
+      apply andb_prop in Hc2 as [Hc2 _]. apply andb_prop in Hc2 as [Hng Henv].
+      apply Nat.eqb_eq in Hng. apply btys_eqb_eq in Henv.
+      assert (Hpar : map (type_of F) (map of_bval env ++ vs) = fd_params fd).
+      { rewrite map_app, of_bvals_typed, Hvs, <- Henv, <- Hps, <- map_app, firstn_skipn.
+        symmetry. apply btys_of_tys_inv. assumption. }
+      assert (Hg0 : g_ok (fd_nglob fd) (sg s2)) by (rewrite Hng; intros k t0 m Hk; inversion Hk).
+      pose proof (IHfn s2 j fd (map of_bval env ++ vs) Hnth Hg0 Hpar) as Hcall.
+      destruct (eval_fun F n s2 fd (map of_bval env ++ vs)); simpl; try contradiction; auto.
+      + destruct Hcall as (H1 & H2 & H3). split; [rewrite H1; apply bty_of_ty_inv; assumption |].
+        destruct Hp1 as [A1 B1]. destruct Hp2 as [A2 B2]. split.
+        * eapply same_types_trans; [exact A1 |]. eapply same_types_trans; eauto.
+        * rewrite H3. eapply same_types_trans; eauto.
+      + destruct Hcall as (H2 & H3).
+        destruct Hp1 as [A1 B1]. destruct Hp2 as [A2 B2]. split.
+        * eapply same_types_trans; [exact A1 |]. eapply same_types_trans; eauto.
+        * rewrite H3. eapply same_types_trans; eauto.
+    - (* EUGet *)
+      destruct (infer cx e) as [t0 |] eqn:He; [| discriminate].
+      destruct t0 as [| | | | | | | fs | | |]; try discriminate.
+      destruct (nth_error fs i) as [b |] eqn:Hf; [| discriminate]. inversion Hinf; subst.
+      eapply out_ok_bind; [eapply IHe; eauto | auto |].
+      intros s' v [Hv Hp]. apply uni_value in Hv as (pre & bv & post & -> & Hfs). simpl.
+      destruct (Nat.eqb (List.length pre) i) eqn:Hi; [| exact I].
+      apply Nat.eqb_eq in Hi. subst i fs. rewrite nth_error_app2 in Hf by lia.
+      rewrite Nat.sub_diag in Hf. simpl in Hf. injection Hf as Hf.
+      simpl. split; [| assumption]. rewrite of_bval_typed. congruence.
   Qed.
 
   Lemma sound_args : forall n, sound_at n ->
@@ -472,7 +765,7 @@ Section Sound.
 
   (* ---------- calls ---------- *)
   Lemma vals_typed_params : forall vs ps,
-      map type_of vs = ps -> vals_typed vs (map (fun t => (t, false)) ps).
+      map (type_of F) vs = ps -> vals_typed vs (map (fun t => (t, false)) ps).
   Proof.
     induction vs as [| v vs IH]; intros ps H; destruct ps; simpl in *; try discriminate; constructor.
     - simpl. congruence.
@@ -481,32 +774,48 @@ Section Sound.
 
   Lemma sound_call : forall n, sound_at n ->
       forall cx s name vs t, ctx_ok cx -> g_ok (cNG cx) (sg s) ->
-                             check_call cx name (map type_of vs) = Some t ->
+                             check_call cx name (map (type_of F) vs) = Some t ->
                              match eval_call F (S n) s name vs with
-                             | RVal s' v => type_of v = t /\ gpres s s' /\ sl s' = sl s
+                             | RVal s' v => type_of F v = t /\ gpres s s' /\ sl s' = sl s
                              | RThrow s' _ => gpres s s' /\ sl s' = sl s
                              | RUndef | RFuel => True
                              | _ => False
                              end.
   Proof.
-    intros n (IHe & IHa & IHc & IHl & IHb & IHs & IHw & IHf & IHfi) cx s name vs t Hcx Hg Hcall.
+    intros n (IHe & IHa & IHc & IHfn & IHl & IHb & IHs & IHw & IHf & IHfi) cx s name vs t Hcx Hg Hcall.
     unfold check_call in Hcall. destruct Hcx as [HG HF]. rewrite HF in Hcall.
-    simpl. destruct (resolve F name (map type_of vs)) as [[j fd] |] eqn:Hres; [| discriminate].
+    simpl. destruct (resolve F name (map (type_of F) vs)) as [[j fd] |] eqn:Hres; [| discriminate].
     destruct (Nat.ltb j (cNF cx) && Nat.leb (fd_nglob fd) (cNG cx) && (negb (cPure cx) || fd_pure fd))%bool eqn:Hc;
       [| discriminate].
     inversion Hcall; subst t.
     apply andb_prop in Hc as [Hc _]. apply andb_prop in Hc as [_ Hng]. apply Nat.leb_le in Hng.
     apply resolve_nth in Hres as [Hnth Hparams].
+    apply (IHfn s j fd vs Hnth); [eapply g_ok_le; eauto | symmetry; assumption].
+  Qed.
+
+  Lemma sound_fun : forall n, sound_at n ->
+      forall s j fd vs, nth_error F j = Some fd -> g_ok (fd_nglob fd) (sg s) ->
+                        map (type_of F) vs = fd_params fd ->
+                        match eval_fun F (S n) s fd vs with
+                        | RVal s' v => type_of F v = fd_ret fd /\ gpres s s' /\ sl s' = sl s
+                        | RThrow s' _ => gpres s s' /\ sl s' = sl s
+                        | RUndef | RFuel => True
+                        | _ => False
+                        end.
+  Proof.
+    intros n (IHe & IHa & IHc & IHfn & IHl & IHb & IHs & IHw & IHf & IHfi) s j fd vs Hnth Hg Hparams.
+    simpl.
     pose proof (Hfuns j fd Hnth) as Hcf. unfold check_fun in Hcf.
     destruct (check_locals (fun_ctx G F j fd) (fd_locals fd)) as [cx1 |] eqn:Hlocs; [| discriminate].
+    apply andb_prop in Hcf as [Hcf _].
     apply andb_prop in Hcf as [Hbody Hresult]. apply opt_ty_eqb_eq in Hresult.
     set (cx0 := fun_ctx G F j fd) in *.
     assert (Hcx0 : ctx_ok cx0) by (split; reflexivity).
     set (s0 := with_frame s vs).
     assert (Hst0 : st_ok cx0 s0).
     { split; simpl.
-      - eapply g_ok_le; eauto.
-      - apply vals_typed_params. symmetry; assumption. }
+      - exact Hg.
+      - apply vals_typed_params. assumption. }
     pose proof (IHl cx0 cx1 s0 (fd_locals fd) Hcx0 Hst0 Hlocs) as Hl.
     (* facts about cx1: same G, F, ret, loop, seq as cx0 *)
     assert (Hcx1 : ctx_ok cx1 /\ cRet cx1 = Some (fd_ret fd) /\ cLoop cx1 = false /\ cSeq cx1 = None).
@@ -516,7 +825,7 @@ Section Sound.
                                      ctx_ok c' /\ cRet c' = Some (fd_ret fd) /\ cLoop c' = false /\ cSeq c' = None).
       { induction ls as [| [t0 e0] ls IH]; simpl; intros c c' Hcl Hc0.
         - inversion Hcl; subst; assumption.
-        - destruct (opt_ty_eqb (infer c e0) t0); [| discriminate].
+        - destruct (opt_ty_eqb (infer c e0) t0 && store_ok t0 e0)%bool; [| discriminate].
           eapply IH; [exact Hcl |]. destruct Hc0 as ((A & B) & C & D & E). repeat split; assumption. }
       eapply Hgen; [exact Hlocs |]. repeat split; reflexivity. }
     destruct Hcx1 as (Hcx1 & Hret1 & Hloop1 & Hseq1).
@@ -560,10 +869,11 @@ Section Sound.
       forall cx cx' s ls, ctx_ok cx -> st_ok cx s -> check_locals cx ls = Some cx' ->
                           locals_ok cx cx' s (eval_locals F (S n) s ls).
   Proof.
-    intros n (IHe & IHa & IHc & IHl & _) cx cx' s ls Hcx Hst Hcl.
+    intros n (IHe & IHa & IHc & IHfn & IHl & _) cx cx' s ls Hcx Hst Hcl.
     destruct ls as [| [t e] ls]; simpl in *.
     - inversion Hcl; subst. split; [assumption | apply same_types_refl].
-    - destruct (opt_ty_eqb (infer cx e) t) eqn:He; [| discriminate]. apply opt_ty_eqb_eq in He.
+    - destruct (opt_ty_eqb (infer cx e) t && store_ok t e)%bool eqn:He; [| discriminate].
+      apply andb_prop in He as [He _]. apply opt_ty_eqb_eq in He.
       pose proof (IHe cx s e t Hcx Hst He) as H1.
       destruct (eval_expr F n s e) as [s1 v | s1 | s1 | s1 v | s1 ov | s1 kx | | |]; simpl in H1 |- *; auto.
       + destruct H1 as [Hv Hp1].
@@ -594,7 +904,7 @@ Section Sound.
       forall cx s ss, ctx_ok cx -> st_ok cx s -> check_block cx ss = true ->
                       out_ok cx s true (unit_ok s) (eval_block F (S n) s ss).
   Proof.
-    intros n (IHe & IHa & IHc & IHl & IHb & IHs & IHw & IHf & IHfi) cx s ss Hcx Hst Hck.
+    intros n (IHe & IHa & IHc & IHfn & IHl & IHb & IHs & IHw & IHf & IHfi) cx s ss Hcx Hst Hck.
     destruct ss as [| st r]; simpl.
     - apply pres_refl.
     - unfold check_block in Hck. simpl in Hck. apply andb_prop in Hck as [H1 H2].
@@ -618,13 +928,13 @@ Section Sound.
       forall cx s st, ctx_ok cx -> st_ok cx s -> check_stmt cx st = true ->
                       out_ok cx s (is_exit st) (unit_ok s) (eval_stmt F (S n) s st).
   Proof.
-    intros n (IHe & IHa & IHc & IHl & IHb & IHs & IHw & IHf & IHfi) cx s st Hcx Hst Hck.
+    intros n (IHe & IHa & IHc & IHfn & IHl & IHb & IHs & IHw & IHf & IHfi) cx s st Hcx Hst Hck.
     destruct st; simpl in Hck |- *.
     - (* SAssG *)
       apply andb_prop in Hck as [Hck H3]. apply andb_prop in Hck as [_ H2].
       apply Nat.ltb_lt in H2.
       destruct (nth_error (cG cx) k) as [[t m] |] eqn:Hn; [| discriminate].
-      destruct m; [| discriminate]. apply opt_ty_eqb_eq in H3.
+      destruct m; [| discriminate]. apply andb_prop in H3 as [H3 _]. apply opt_ty_eqb_eq in H3.
       eapply out_ok_bind; [eapply IHe; eauto | auto |].
       intros s1 v [Hv Hp1].
       assert (Hst1 : st_ok cx s1) by (eapply st_ok_pres; eauto).
@@ -636,7 +946,7 @@ Section Sound.
       + assumption.
     - (* SAssL *)
       destruct (nth_error (cL cx) k) as [[t m] |] eqn:Hn; [| discriminate].
-      destruct m; [| discriminate]. apply opt_ty_eqb_eq in Hck.
+      destruct m; [| discriminate]. apply andb_prop in Hck as [Hck _]. apply opt_ty_eqb_eq in Hck.
       eapply out_ok_bind; [eapply IHe; eauto | auto |].
       intros s1 v [Hv Hp1].
       assert (Hst1 : st_ok cx s1) by (eapply st_ok_pres; eauto).
@@ -645,6 +955,78 @@ Section Sound.
       rewrite Hset. simpl. unfold unit_ok. destruct Hp1 as [A B]. split; simpl.
       + assumption.
       + eapply same_types_trans; eauto.
+    - (* SSetG *)
+      apply andb_prop in Hck as [Hck H3]. apply andb_prop in Hck as [_ H2].
+      apply Nat.ltb_lt in H2.
+      destruct (nth_error (cG cx) k) as [[t m] |] eqn:Hn; [| discriminate].
+      destruct t as [| | | | | | | | | | fs]; try discriminate. destruct m; [| discriminate].
+      destruct (nth_error fs i) as [b |] eqn:Hf; [| discriminate]. apply opt_ty_eqb_eq in H3.
+      eapply out_ok_bind; [eapply IHe; eauto | auto |].
+      intros s1 v [Hv Hp1].
+      assert (Hst1 : st_ok cx s1) by (eapply st_ok_pres; eauto).
+      destruct Hcx as [HG HF]. rewrite HG in Hn.
+      destruct (proj1 Hst1 k (TRec fs) true H2 Hn) as (v0 & Hv0 & Ht0).
+      apply rec_value in Ht0 as (bs & -> & Hbs).
+      destruct (to_bval_typed v b Hv) as (bv & Hbv & Hbt).
+      rewrite Hv0, Hbv. rewrite <- Hbs in Hf.
+      destruct (set_nth_btypes bs i bv b Hf Hbt) as (bs' & Hs1 & Hs2). rewrite Hs1.
+      destruct (set_nth_same (sg s1) k (VRec bs') (VRec bs) Hv0) as (g' & Hset & Hsame); [simpl; congruence |].
+      rewrite Hset. simpl. unfold unit_ok. destruct Hp1 as [A B]. split; simpl.
+      + eapply same_types_trans; eauto.
+      + assumption.
+    - (* SSetL *)
+      apply andb_prop in Hck as [_ Hck].
+      destruct (nth_error (cL cx) k) as [[t m] |] eqn:Hn; [| discriminate].
+      destruct t as [| | | | | | | | | | fs]; try discriminate. destruct m; [| discriminate].
+      destruct (nth_error fs i) as [b |] eqn:Hf; [| discriminate]. apply opt_ty_eqb_eq in Hck.
+      eapply out_ok_bind; [eapply IHe; eauto | auto |].
+      intros s1 v [Hv Hp1].
+      assert (Hst1 : st_ok cx s1) by (eapply st_ok_pres; eauto).
+      destruct (vals_typed_nth _ _ _ _ _ (proj2 Hst1) Hn) as (v0 & Hv0 & Ht0).
+      apply rec_value in Ht0 as (bs & -> & Hbs).
+      destruct (to_bval_typed v b Hv) as (bv & Hbv & Hbt).
+      rewrite Hv0, Hbv. rewrite <- Hbs in Hf.
+      destruct (set_nth_btypes bs i bv b Hf Hbt) as (bs' & Hs1 & Hs2). rewrite Hs1.
+      destruct (set_nth_same (sl s1) k (VRec bs') (VRec bs) Hv0) as (l' & Hset & Hsame); [simpl; congruence |].
+      rewrite Hset. simpl. unfold unit_ok. destruct Hp1 as [A B]. split; simpl.
+      + assumption.
+      + eapply same_types_trans; eauto.
+    - (* SSetIG *)
+      apply andb_prop in Hck as [Hck H6]. apply andb_prop in Hck as [Hck H5].
+      apply andb_prop in Hck as [_ H4]. apply Nat.ltb_lt in H4. apply opt_ty_eqb_eq in H5.
+      destruct (nth_error (cG cx) k) as [[t m] |] eqn:Hn; [| discriminate].
+      destruct t as [| | | | | | b | | | |]; try discriminate. destruct m; [| discriminate].
+      apply opt_ty_eqb_eq in H6.
+      eapply out_ok_bind; [eapply IHe; eauto | auto |].
+      intros s1 vi [Hvi Hp1]. apply mi_value in Hvi as [z ->].
+      assert (Hst1 : st_ok cx s1) by (eapply st_ok_pres; eauto).
+      eapply out_ok_bind; [eapply out_ok_shift; [exact Hp1 | eapply IHe; eauto | intros ? ? H; exact H] | auto |].
+      intros s2 v [Hv Hp2].
+      assert (Hst2 : st_ok cx s2) by (eapply st_ok_pres; eauto).
+      destruct Hcx as [HG HF]. rewrite HG in Hn.
+      destruct (proj1 Hst2 k (TArr b) true H4 Hn) as (a & Ha & Hta). rewrite Ha.
+      destruct (arr_set_typed a z v b Hta Hv) as [-> | (a' & -> & Hta')]; [exact I |].
+      destruct (set_nth_same (sg s2) k a' a Ha) as (g' & Hset & Hsame); [congruence |].
+      rewrite Hset. simpl. unfold unit_ok. destruct Hp1 as [A B]. destruct Hp2 as [A2 B2]. split; simpl.
+      + eapply same_types_trans; [exact A |]. eapply same_types_trans; eauto.
+      + eapply same_types_trans; eauto.
+    - (* SSetIL *)
+      apply andb_prop in Hck as [Hck H6]. apply andb_prop in Hck as [_ H5]. apply opt_ty_eqb_eq in H5.
+      destruct (nth_error (cL cx) k) as [[t m] |] eqn:Hn; [| discriminate].
+      destruct t as [| | | | | | b | | | |]; try discriminate. destruct m; [| discriminate].
+      apply opt_ty_eqb_eq in H6.
+      eapply out_ok_bind; [eapply IHe; eauto | auto |].
+      intros s1 vi [Hvi Hp1]. apply mi_value in Hvi as [z ->].
+      assert (Hst1 : st_ok cx s1) by (eapply st_ok_pres; eauto).
+      eapply out_ok_bind; [eapply out_ok_shift; [exact Hp1 | eapply IHe; eauto | intros ? ? H; exact H] | auto |].
+      intros s2 v [Hv Hp2].
+      assert (Hst2 : st_ok cx s2) by (eapply st_ok_pres; eauto).
+      destruct (vals_typed_nth _ _ _ _ _ (proj2 Hst2) Hn) as (a & Ha & Hta). rewrite Ha.
+      destruct (arr_set_typed a z v b Hta Hv) as [-> | (a' & -> & Hta')]; [exact I |].
+      destruct (set_nth_same (sl s2) k a' a Ha) as (l' & Hset & Hsame); [congruence |].
+      rewrite Hset. simpl. unfold unit_ok. destruct Hp1 as [A B]. destruct Hp2 as [A2 B2]. split; simpl.
+      + eapply same_types_trans; eauto.
+      + eapply same_types_trans; [exact B |]. eapply same_types_trans; eauto.
     - (* SPrint *)
       apply andb_prop in Hck as [Hck _]. apply andb_prop in Hck as [_ H2].
       destruct (map_opt (infer cx) es) as [ts |] eqn:Hes; [| discriminate].
@@ -677,17 +1059,22 @@ Section Sound.
       eapply out_ok_shift; [eapply pres_trans; eauto | eapply IHf; eauto |].
       intros s3 [] Hp3. unfold unit_ok in *. eapply pres_trans; [eapply pres_trans; eauto | exact Hp3].
     - (* SForIn *)
-      apply andb_prop in Hck as [H1 H2]. apply opt_ty_eqb_eq in H1.
+      apply andb_prop in Hck as [H1 H2].
+      assert (H1' : exists tl, infer cx l = Some tl /\ (tl = TList b \/ tl = TArr b)).
+      { apply orb_prop in H1 as [H1 | H1]; apply opt_ty_eqb_eq in H1; eauto. }
+      destruct H1' as (tl & H1' & Htl).
       eapply out_ok_bind; [eapply IHe; eauto | auto |].
       intros s1 vl [Hvl Hp1].
-      destruct (dec_list_typed vl b Hvl) as (vs & -> & Hall).
+      assert (Hvl' : type_of F vl = TList b \/ type_of F vl = TArr b) by (destruct Htl; subst; auto).
+      destruct (dec_list_typed vl b Hvl') as (vs & -> & Hall).
       assert (Hst1 : st_ok cx s1) by (eapply st_ok_pres; eauto).
       eapply out_ok_shift; [exact Hp1 | eapply IHfi; eauto |].
       intros s3 [] Hp3. unfold unit_ok in *. eapply pres_trans; eauto.
     - (* SBreak *) split; [assumption | apply pres_refl].
     - (* SIterate *) split; [assumption | apply pres_refl].
     - (* SReturn *)
-      destruct (cRet cx) as [t |] eqn:Hr; [| discriminate]. apply opt_ty_eqb_eq in Hck.
+      destruct (cRet cx) as [t |] eqn:Hr; [| discriminate].
+      apply andb_prop in Hck as [Hck _]. apply opt_ty_eqb_eq in Hck.
       eapply out_ok_bind; [eapply IHe; eauto | auto |].
       intros s1 v [Hv Hp1]. simpl. split; [congruence | apply pres_gpres; assumption].
     - (* SExit *)
@@ -704,6 +1091,7 @@ Section Sound.
       intros s2 [] Hp2. simpl. split; [reflexivity | split; [eapply pres_trans; eauto | assumption]].
     - (* SExitV *)
       destruct (cSeq cx) as [t |] eqn:Hseq; [| discriminate].
+      apply andb_prop in Hck as [Hck _].
       apply andb_prop in Hck as [H1 H2]. apply opt_ty_eqb_eq in H1. apply opt_ty_eqb_eq in H2.
       eapply out_ok_bind; [eapply IHe; eauto | intros; reflexivity |].
       intros s1 v [Hv Hp1]. apply bool_value in Hv as [bv ->].
@@ -750,7 +1138,7 @@ Section Sound.
                           check_block (in_loop cx) body = true ->
                           out_ok cx s false (unit_ok s) (eval_while F (S n) s c body).
   Proof.
-    intros n (IHe & IHa & IHc & IHl & IHb & IHs & IHw & IHf & IHfi) cx s c body Hcx Hst Hc Hb.
+    intros n (IHe & IHa & IHc & IHfn & IHl & IHb & IHs & IHw & IHf & IHfi) cx s c body Hcx Hst Hc Hb.
     simpl.
     eapply out_ok_bind; [eapply IHe; eauto | auto |].
     intros s1 v [Hv Hp1]. apply bool_value in Hv as [bv ->].
@@ -777,7 +1165,7 @@ Section Sound.
                             check_block (in_loop (push_local cx (TMI, false))) body = true ->
                             out_ok cx s false (unit_ok s) (eval_for F (S n) s a b body).
   Proof.
-    intros n (IHe & IHa & IHc & IHl & IHb & IHs & IHw & IHf & IHfi) cx s a b body Hcx Hst Hb.
+    intros n (IHe & IHa & IHc & IHfn & IHl & IHb & IHs & IHw & IHf & IHfi) cx s a b body Hcx Hst Hb.
     simpl. destruct (a <=? b)%Z; [| apply pres_refl].
     set (cx' := in_loop (push_local cx (TMI, false))) in *.
     set (s0 := with_frame s (sl s ++ [VNum NMI a])).
@@ -804,11 +1192,11 @@ Section Sound.
 
   Lemma sound_forin : forall n, sound_at n ->
       forall cx s b vs body, ctx_ok cx -> st_ok cx s ->
-                             Forall (fun v => type_of v = ty_of_bty b) vs ->
+                             Forall (fun v => type_of F v = ty_of_bty b) vs ->
                              check_block (in_loop (push_local cx (ty_of_bty b, false))) body = true ->
                              out_ok cx s false (unit_ok s) (eval_forin F (S n) s vs body).
   Proof.
-    intros n (IHe & IHa & IHc & IHl & IHb & IHs & IHw & IHf & IHfi) cx s b vs body Hcx Hst Hall Hb.
+    intros n (IHe & IHa & IHc & IHfn & IHl & IHb & IHs & IHw & IHf & IHfi) cx s b vs body Hcx Hst Hall Hb.
     simpl. destruct vs as [| v rest]; [apply pres_refl |].
     inversion Hall as [| ? ? Hv Hrest]; subst.
     set (cx' := in_loop (push_local cx (ty_of_bty b, false))) in *.
@@ -842,6 +1230,7 @@ Section Sound.
       + apply sound_expr; assumption.
       + apply sound_args; assumption.
       + apply sound_call; assumption.
+      + apply sound_fun; assumption.
       + apply sound_locals; assumption.
       + apply sound_block; assumption.
       + apply sound_stmt; assumption.
@@ -873,11 +1262,11 @@ Lemma sound_items : forall G F,
     forall f p Gd s nf,
       G = Gd ++ globals_of p ->
       List.length (sg s) = List.length Gd ->
-      g_ok G (List.length Gd) (sg s) ->
+      g_ok G F (List.length Gd) (sg s) ->
       check_items G F (List.length Gd) nf p = true ->
       eval_items F f s p <> Stuck.
 Proof.
-  intros G F Hf f p. pose proof (sound_all G F Hf f) as (IHe & _ & _ & _ & _ & IHs & _ & _ & _).
+  intros G F Hf f p. pose proof (sound_all G F Hf f) as (IHe & _ & _ & _ & _ & _ & IHs & _ & _ & _).
   induction p as [| it p IH]; intros Gd s nf HG Hlen Hg Hck; simpl in *.
   - discriminate.
   - assert (Hdecl : forall t m e r,
@@ -885,7 +1274,7 @@ Proof.
                opt_ty_eqb (infer (top_ctx G F (List.length Gd) nf) e) t = true ->
                check_items G F (S (List.length Gd)) nf r = true ->
                (forall Gd' s' nf', G = Gd' ++ globals_of r -> List.length (sg s') = List.length Gd' ->
-                                   g_ok G (List.length Gd') (sg s') ->
+                                   g_ok G F (List.length Gd') (sg s') ->
                                    check_items G F (List.length Gd') nf' r = true ->
                                    eval_items F f s' r <> Stuck) ->
                match eval_expr F f (with_frame s []) e with
@@ -898,16 +1287,16 @@ Proof.
     { intros t m e r HG' H1 H2 IHr. apply opt_ty_eqb_eq in H1.
       set (cx := top_ctx G F (List.length Gd) nf) in *.
       assert (Hcx : ctx_ok G F cx) by (split; reflexivity).
-      assert (Hst : st_ok G cx (with_frame s [])) by (split; simpl; [assumption | constructor]).
+      assert (Hst : st_ok G F cx (with_frame s [])) by (split; simpl; [assumption | constructor]).
       pose proof (IHe cx (with_frame s []) e t Hcx Hst H1) as Ho.
       destruct (eval_expr F f (with_frame s []) e) as [s1 v | s1 | s1 | s1 v | s1 ov | s1 kx | | |]; simpl in Ho;
         try discriminate; try contradiction; try (simpl; discriminate).
       - destruct Ho as [Hv [Hp _]]. simpl in Hp.
         apply (IHr (Gd ++ [(t, m)]) (mkSt (sg s1 ++ [v]) [] (so s1)) nf).
         + rewrite <- app_assoc. simpl. assumption.
-        + simpl. rewrite !app_length. simpl. apply same_types_length in Hp. lia.
+        + simpl. rewrite !app_length. simpl. apply (same_types_length F) in Hp. lia.
         + simpl. rewrite app_length. simpl.
-          pose proof (same_types_length _ _ Hp) as Hl.
+          pose proof (same_types_length F _ _ Hp) as Hl.
           intros k t' m' Hk Hn.
           destruct (Nat.eq_dec k (List.length Gd)) as [-> | Hne].
           * rewrite HG' in Hn. rewrite nth_error_app2 in Hn by lia.
@@ -916,7 +1305,7 @@ Proof.
             rewrite nth_error_app2 by lia. replace (List.length Gd - List.length (sg s1)) with 0 by lia.
             reflexivity.
           * assert (Hk' : k < List.length Gd) by lia.
-            destruct (g_ok_same G _ _ _ Hg Hp k t' m' Hk' Hn) as (v' & Hv' & Ht').
+            destruct (g_ok_same G F _ _ _ Hg Hp k t' m' Hk' Hn) as (v' & Hv' & Ht').
             exists v'. split; [| assumption]. rewrite nth_error_app1; [assumption |].
             apply nth_error_Some. congruence.
         + rewrite app_length. simpl. replace (List.length Gd + 1) with (S (List.length Gd)) by lia. assumption.
@@ -925,20 +1314,20 @@ Proof.
       - destruct Ho as [Ho _]. simpl in Ho. discriminate.
       - destruct Ho as [Ho _]. discriminate. }
     destruct it; simpl in *.
-    + apply andb_prop in Hck as [H1 H2]. eapply Hdecl; eauto.
-    + apply andb_prop in Hck as [H1 H2]. eapply Hdecl; eauto.
+    + apply andb_prop in Hck as [Hck H2]. apply andb_prop in Hck as [H1 _]. eapply Hdecl; eauto.
+    + apply andb_prop in Hck as [Hck H2]. apply andb_prop in Hck as [H1 _]. eapply Hdecl; eauto.
     + apply andb_prop in Hck as [Hck H3]. eapply IH; eauto.
     + apply andb_prop in Hck as [Hck H3]. apply andb_prop in Hck as [H1 H2].
       apply negb_true_iff in H1.
       set (cx := top_ctx G F (List.length Gd) nf) in *.
       assert (Hcx : ctx_ok G F cx) by (split; reflexivity).
-      assert (Hst : st_ok G cx (with_frame s [])) by (split; simpl; [assumption | constructor]).
+      assert (Hst : st_ok G F cx (with_frame s [])) by (split; simpl; [assumption | constructor]).
       pose proof (IHs cx (with_frame s []) s0 Hcx Hst H2) as Ho. rewrite H1 in Ho.
       destruct (eval_stmt F f (with_frame s []) s0) as [s1 [] | s1 | s1 | s1 v | s1 ov | s1 kx | | |]; simpl in Ho;
         try discriminate; try contradiction; try (simpl; discriminate).
       * destruct Ho as [Hp _]. simpl in Hp.
         apply (IH Gd (with_frame s1 []) nf); simpl; auto.
-        -- apply same_types_length in Hp. lia.
+        -- apply (same_types_length F) in Hp. lia.
         -- eapply g_ok_same; eauto.
       * destruct Ho as [Ho _]. simpl in Ho. discriminate.
       * destruct Ho as [Ho _]. simpl in Ho. discriminate.
